@@ -31,7 +31,7 @@ FORBIDDEN = re.compile(r'\b(Admitted|admit|Axiom|Axioms|Parameter|Parameters|Con
                        r'|Unset\s+Guard|bypass_check|type-in-type|impredicative-set|Admit\s+Obligations')
 
 TRUSTED_BASE = [
-    'Coq 8.16.1 kernel (coqc); vm_compute is used, native_compute is not',
+    'Coq 8.16.1 kernel (coqc); vm_compute is used, native_compute is not; the thorough tier re-checks the compiled Props file and all it depends on with coqchk -o',
     'axioms: none (every property theorem is "Closed under the global context"; checked on every run)',
     'translators lib/translate.py (parser.rs tables, parser.kiki rules, table_to_rust.rs template)',
     'extraction: ExtrOcamlBasic only (bool, option, unit, list, prod, sumbool, sumor), no Extract Constant; OCaml 4.13.1',
@@ -145,7 +145,7 @@ def audit_sources():
     return bad
 
 
-def check_props(pid):
+def check_props(pid, coqchk=False):
     """Rebuild Props/<pid>.v against the regenerated model; returns
     dict(theorems=[...], closed=n, axioms=[...]).  Raises ProofFailure."""
     with Lock('coq'):
@@ -173,7 +173,16 @@ def check_props(pid):
     bad = audit_sources()
     if bad:
         raise ProofFailure('forbidden vernacular: %s' % bad[:5], '\n'.join(bad))
-    return dict(theorems=theorems, closed=closed, axioms=axioms)
+    chk = None
+    if coqchk:
+        # independent re-check of the compiled Props file and everything it depends on
+        rc, cout = sh(['coqchk', '-silent', '-o', '-Q', '.', 'Kiki', 'Kiki.Props.%s' % pid], cwd=COQ, timeout=1800)
+        wanted = ['* Axioms: <none>', 'relying on type-in-type: <none>', 'relying on unsafe (co)fixpoints: <none>',
+                  'positivity is assumed: <none>']
+        if rc != 0 or not all(w in cout for w in wanted):
+            raise ProofFailure('coqchk does not confirm Props/%s.vo (axioms / unsafe features)' % pid, cout[-3000:])
+        chk = 'coqchk -o: no axioms, no type-in-type, no unsafe fixpoints, no assumed positivity'
+    return dict(theorems=theorems, closed=closed, axioms=axioms, coqchk=chk)
 
 
 # ------------------------------------------------------------------ model (OCaml)
